@@ -291,6 +291,9 @@ def finish(mod, total, tier, seed, t0):
         sys.stderr.write("note: VERIF_NOCONFIRM=1, %d unknown buckets left unconfirmed\n" % len(todo))
         for bucket, f in todo:
             sys.stderr.write("unconfirmed bucket=%s count=%d detail=%s\n" % (bucket, f["count"], f["detail"][:300]))
+        if os.environ.get("VERIF_DUMP_UNCONFIRMED"):
+            with open(os.environ["VERIF_DUMP_UNCONFIRMED"], "w") as fh:
+                json.dump([dict(bucket=b_, case=f_["case"]) for b_, f_ in todo], fh)
         todo = []
     if todo:
         from concurrent.futures import ThreadPoolExecutor
